@@ -489,6 +489,34 @@ class NotEvaluable(Exception):
     pass
 
 
+def inline_repo_calls(repo, t, depth=2, only_mod=None):
+    """calls of repository functions that were left as `call` nodes (inventory functions are not inlined by the evaluator) replaced by the
+    callee's own return term with the actual arguments substituted - for rules that compare formulas, where `f(x) = g(-x)` is as good as
+    writing g's formula out.  Positional arguments only; anything else is left alone."""
+    if depth <= 0:
+        return t
+    mp = {}
+    for x in set(y for y in T.walk(t) if y[0] == "call" and isinstance(y[1], str) and "." in y[1] and not y[1].startswith(".")):
+        mod, _, q = x[1].partition(".")
+        if only_mod is not None and mod != only_mod:
+            continue
+        m = repo.modules.get(mod)
+        if m is None or q not in m.functions or any(a[0] == "kw" for a in x[2:]):
+            continue
+        fn = m.functions[q]
+        names = [a.arg for a in fn.args.args]
+        if fn.args.vararg or fn.args.kwarg or (names and names[0] in ("self", "cls")) or len(x) - 2 > len(names) \
+                or len(x) - 2 < len(names) - len(fn.args.defaults):
+            continue
+        syms = [T.sym("INL@%s@%d" % (x[1], i)) for i in range(len(x) - 2)]
+        try:
+            body = ret_term(repo, mod, q, arg_terms=dict(zip(names, syms)))
+        except Exception:
+            continue
+        mp[x] = inline_repo_calls(repo, T.subst(body, dict(zip(syms, x[2:]))), depth - 1, only_mod)
+    return T.subst(t, mp) if mp else t
+
+
 def repo_prims(repo, base=None, unroll=64):
     """primitive hook for eval_exact that gives a call of a repository function (static method / module function kept as a
     `call` node because it is part of the frozen inventory) the meaning of its own extracted return term: the term is derived
